@@ -49,6 +49,23 @@ def reference(spec, img, rng_seed):
         return 'any', None
     if c == 'RandomSizedCrop':
         return 'shape', (a['height'], a['width'], a['depth'])
+    if c == 'CropAndPad' and not a.get('keep_size', True) and (isinstance(a.get('px'), (tuple, list)) or isinstance(a.get('percent'), (tuple, list))) \
+            and all(isinstance(v, (int, float)) for v in (a.get('px') or a.get('percent'))):
+        # documented: six entries = top, bottom, left, right, close, far; negative crops that many voxels off the
+        # side, positive pads it (constant value); percent entries are fractions of the side's own extent
+        H, W, D = img.shape[:3]
+        amt = list(a['px']) if a.get('px') is not None else [int(v * n) for v, n in zip(a['percent'], (H, H, W, W, D, D))]
+        cr = [max(-v, 0) for v in amt]
+        pd = [max(v, 0) for v in amt]
+        if H - cr[0] - cr[1] < 1 or W - cr[2] - cr[3] < 1 or D - cr[4] - cr[5] < 1:
+            return 'any', None
+        win = img[cr[0]:H - cr[1], cr[2]:W - cr[3], cr[4]:D - cr[5]]
+        pads = [(pd[0], pd[1]), (pd[2], pd[3]), (pd[4], pd[5])] + [(0, 0)] * (img.ndim - 3)
+        return 'exact', np.pad(win, pads, mode='constant', constant_values=a.get('pad_cval', 0))
+    if c == 'CropAndPad' and a.get('keep_size', True):
+        return 'preserve', None
+    if c == 'CropAndPad':
+        return 'any', None
     return 'preserve', None
 
 
@@ -169,6 +186,16 @@ def run(seed=0, tier='quick', hints=None, broken=False):
             check(c, case, viol)
             evals += 1
             seen.add((c['cls'], shape, case['channels']))
+    # CropAndPad: every axis pattern once (crop / pad / mixed on one axis, others untouched) against the documented window
+    for rep in range(1 if tier == 'quick' else 12):
+        for c in S.crop_and_pad_sweep(rng):
+            shape = tuple(rng.sample([5, 6, 7, 8, 9, 10], 3))
+            case = {'shape': list(shape), 'seed': R.pick_seed(rng), 'channels': rng.choice([None, None, 1, 3])}
+            check(c, case, viol)
+            k = dict(c, args=dict(c['args'], keep_size=True, interpolation=0))
+            check(k, case, viol)
+            evals += 2
+            seen.add(('CropAndPad-sweep', repr(c['args'].get('px', c['args'].get('percent')))))
     return {'violations': viol, 'info': {'evaluations': evals, 'distinct': len(seen),
                                          'what': 'documented voxel map / size per spatial transform vs NumPy reference'}}
 
